@@ -661,7 +661,7 @@ def _check_noop_rule(f, c, sid):
                          % (c.idx, req.rid, len(msgs),
                             _short(msgs[0]['data']))))
         elif ph == 'probed':
-            nxt = u.get('seq_sent5') or u.get('seq_end')
+            nxt = u.get('seq_after_probe') or u.get('seq_end')
             if nxt is not None and req.seq_resp < nxt:
                 out.append(V('one-transport', '%s|message-on-poll-during-'
                              'handshake' % f.impl,
@@ -734,7 +734,9 @@ def _check_drain(f, h, c, sid, sends, seen):
             if r is not None and (r['chan'] != 'poll' or
                                   r['ref'] != req.rid):
                 # delivered elsewhere: fine if that was an earlier response
-                other = next((p for p in polls if p.rid == r['ref']), None)
+                other = h.world.requests[r['ref']] \
+                    if r['chan'] == 'poll' and \
+                    r['ref'] < len(h.world.requests) else None
                 if other is not None and other.seq_done is not None and \
                         other.seq_done < req.seq_arrive:
                     continue
@@ -907,6 +909,11 @@ def check_dispatch(h, f=None):
                     continue
                 used[hit[0]] = True
                 idxs.append(hit[0])
+            # (order is judged on payloads that occur once in the run)
+            def _uniq(i):
+                return sum(1 for e2 in events
+                           if R.same_value(e2['arg'], events[i]['arg'])) == 1
+            idxs = [i for i in idxs if _uniq(i)]
             if not f.async_handlers and idxs != sorted(idxs):
                 out.append(V('dispatch-order', '%s|out-of-order|%s' % (
                     impl, kind), 'session %s: synchronous handlers saw the '
